@@ -2,7 +2,7 @@
 
     The Barzilai-Borwein policies divide inner products with IEEE semantics (the operands
     are JAX scalars, so [x/0] is [+-inf] or [nan], never an exception) and then test the
-    quotient with [isnan] and [<= 0.0].  This file writes those rules out once, generically
+    quotient with [isfinite] and [<= 0.0].  This file writes those rules out once, generically
     in the finite scalar [K] (theorems at [R], execution at [Qc]).
 
     [Fin q] is a finite value; [Fin 0] is the IEEE +0 and [NZ] the IEEE -0 (the sign of a
@@ -24,6 +24,8 @@ Section XR.
     match a with Fin q => q =? k0 | NZ => true | _ => false end.
   Definition xisnan (a : xr) : bool := match a with NaN => true | _ => false end.
   Definition xisinf (a : xr) : bool := match a with PInf | NInf => true | _ => false end.
+  (** [snp.isfinite] *)
+  Definition xisfinite (a : xr) : bool := match a with Fin _ | NZ => true | _ => false end.
   Definition sinf (neg : bool) : xr := if neg then NInf else PInf.
   Definition szero (neg : bool) : xr := if neg then NZ else Fin k0.
 
